@@ -28,7 +28,8 @@ def msg_class(msg: str) -> str:
     if i >= 0:
         m = m[i + 2:]
     m = m.strip().splitlines()[0] if m.strip() else m
-    m = re.sub(r"of type .*? with", "of type <T> with", m)
+    m = m.split(" The source type was")[0]
+    m = re.sub(r"of type .*?( with|\.?$)", r"of type <T>\1", m)
     m = re.sub(r"\d+", "#", m)
     return m[:160]
 
